@@ -142,7 +142,10 @@ def e2e(ctx):
         plans += [('yandex', 'remote', {'fault': 'corrupt', 'match': {'provider': 'yandex', 'endpoint': 'upload-data', 'nth': 1}}),
                   ('google', 'remote', {'fault': 'status', 'match': {'provider': 'google', 'endpoint': 'get-file', 'nth': 1}}),
                   ('google', 'gpg-dies', None), ('yandex', 'unreadable', None), ('yandex', 'gpg-killed', None)]
+    # Yandex Disk may perform a move asynchronously: 202 and an operation to poll, which can end as failed
+    plans += [('yandex', 'remote', {'fault': 'async-fail', 'match': {'provider': 'yandex', 'endpoint': 'move', 'nth': n_}}) for n_ in ((1,) if ctx.tier == 'quick' else (1, 2))]
     stats = {'cases': 0, 'first_failed_second_uploaded': 0, 'both_failed': 0, 'none_failed': 0}
+    hung = 0
     for idx, (prov, mode, rule) in enumerate(plans):
         e = uc.E2E(ctx, 300 + idx, prov, 'correct horse', nbackups=2)
         try:
@@ -180,6 +183,9 @@ def e2e(ctx):
             stats['cases'] += 1
             if r.rc == -999:
                 ctx.violation('property', 'vsb upload did not terminate within the watchdog time [%s %s %s]' % (prov, mode, rule), {'case': case})
+                hung = hung + 1
+                if hung >= 2:
+                    break       # (two runs that never end are enough: the remaining plans would each wait for the watchdog too)
                 continue
             if o['gpg_left']:
                 ctx.violation('property', 'a gpg process was left behind after vsb upload ended [%s %s %s]' % (prov, mode, rule), {'case': case, 'pids': o['gpg_left']})
@@ -226,6 +232,41 @@ def e2e(ctx):
                 rc_, pt, err_ = uc.gpg_decrypt(e.home, blob, e.passphrase)
                 if rc_ != 0:
                     ctx.violation('property', 'the final-named object %s does not decrypt (%s) [%s %s %s]' % (rel, err_.strip()[-120:], prov, mode, rule), {'case': case})
+        finally:
+            e.close()
+    # "the remaining backups are still attempted" across configured backups: the configuration names another upload-enabled
+    # backup first, whose synchronisation fails as a whole (its cloud root does not exist / the listing request is refused)
+    for idx, (prov, how) in enumerate([('dropbox', 'missing-cloud-root'), ('yandex', 'listing-refused')] if ctx.tier == 'quick' else
+                                      [(p_, h_) for p_ in uc.PROVIDERS for h_ in ('missing-cloud-root', 'listing-refused')]):
+        e = uc.E2E(ctx, 380 + idx, prov, 'correct horse', nbackups=1)
+        try:
+            root_a = os.path.join(e.w.base, 'storage-a')
+            os.makedirs(root_a)
+            one = open(e.cfg).read().split('\n', 1)[1]          # the entry of backup `b` (everything after `backups:`)
+            first = one.replace('name: "b"', 'name: "a"').replace('path: %s' % json.dumps(e.w.root), 'path: %s' % json.dumps(root_a))
+            if how == 'missing-cloud-root':
+                first = first.replace('path: "%s"' % e.CLOUD_ROOT, 'path: "/NoSuchRoot"')
+            else:
+                first = first.replace('path: "%s"' % e.CLOUD_ROOT, 'path: "/BackupsA"')
+                ns = uc.emu.pe.load_namespace(e.stage.dir, prov)
+                ns.mkdir('/BackupsA')
+                uc.emu.pe.save_namespace(e.stage.dir, ns)
+                e.stage.emu.reload()
+            with open(e.cfg, 'w') as f:
+                f.write('backups:\n' + first + one)
+            rule = {'fault': 'status', 'match': {'provider': prov, 'endpoint': 'list', 'nth': 1}} if how == 'listing-refused' else None
+            o = e.upload(rules=[rule] if rule else None)
+            case = {'provider': prov, 'mode': 'another configured backup fails first: ' + how}
+            stats['cases'] += 1
+            stats['other_configured_backup_failed'] = stats.get('other_configured_backup_failed', 0) + 1
+            errs = o['run'].errors()
+            finals = {rel for rel in o['cloud'] if not os.path.basename(rel).startswith('.')}
+            want = '%s/%s.tar.gpg' % e.backups[0]
+            if not any('[a]' in x for x in errs):
+                ctx.violation('runtime', 'the synchronisation of the first configured backup did not fail as arranged (%s): %s' % (how, errs[:2]), {'case': case}, found_input=False)
+            elif want not in finals:
+                ctx.violation('property', 'the synchronisation of configured backup `a` failed (%s) and backup `b` was not attempted: %s is not in the cloud [%s]: %s'
+                              % (how, want, prov, errs[:3]), {'case': case})
         finally:
             e.close()
     return stats
